@@ -104,7 +104,11 @@ func (o *CandidateNode) UnmarshalJSON(data []byte) error {
 
 			childKey := o.CreateChild()
 			childKey.IsMapKey = true
-			childKey.Value = tok.(string)
+			keyText, isString := tok.(string)
+			if !isString {
+				return fmt.Errorf("invalid JSON: the key of an object must be a string, got %v", tok)
+			}
+			childKey.Value = keyText
 			childKey.Kind = ScalarNode
 			childKey.Tag = "!!str"
 
